@@ -40,7 +40,7 @@ struct Client {
 	// towards the daemon
 	std::string rx; size_t rx_off = 0; bool eof = false; int rx_err = 0; bool hup = false; size_t rdcap = 0; bool err_reported = false;
 	// from the daemon
-	std::string out; int64_t space = -1; size_t wcap = 0; bool blocked = false; int wr_err = 0; bool wr_fail_after_close = false; int wr_ok_left = 0; int cfg_fail_at = 0, cfg_fail_errno = 0, epoll_add_errno = 0; bool c19_broken_by_fault = false; void c19_set_lenient();
+	std::string out; int64_t space = -1; size_t wcap = 0; bool wboundary = false; uint64_t wcount = 0; bool blocked = false; int wr_err = 0; bool wr_fail_after_close = false; int wr_ok_left = 0; int cfg_fail_at = 0, cfg_fail_errno = 0, epoll_add_errno = 0; bool c19_broken_by_fault = false; void c19_set_lenient();
 	uint64_t write_attempts_turn = 0;
 	InDec in; OutDec od; C10State c10; C19 *c19 = nullptr;
 	// oracle state
